@@ -570,3 +570,104 @@ Proof.
 Qed.
 
 Definition scan_e := proj1 scan_e_d.
+
+(* ------------------------------------------------------------------ normalised chains *)
+Lemma strip_cw_word a x : is_word a = true -> strip_cw (a :: x) = a :: strip_cw x.
+Proof.
+  intros W. cbn [strip_cw]. rewrite (word_not_lpar a W), (word_not_space a W). cbn [andb].
+  destruct x; reflexivity.
+Qed.
+Lemma strip_cw_words w x : forallb is_word w = true -> strip_cw (w ++ x) = w ++ strip_cw x.
+Proof.
+  induction w as [|a w IH]; intros H; [reflexivity|]. cbn [forallb] in H. apply andb_true_iff in H as [Ha H].
+  cbn [app]. rewrite (strip_cw_word a _ Ha), (IH H). reflexivity.
+Qed.
+Lemma strip_cw_par x : strip_cw (lpar :: rpar :: x) = strip_cw x.
+Proof. reflexivity. Qed.
+Lemma strip_cw_pct x : strip_cw (pct :: x) = pct :: strip_cw x.
+Proof. destruct x; reflexivity. Qed.
+
+Lemma lower_word c : is_word c = true -> is_word (lower_ch c) = true.
+Proof. destruct c as [[|] [|] [|] [|] [|] [|] [|] [|]]; intros H; try discriminate H; reflexivity. Qed.
+
+Lemma split_on_word cur w : forallb is_word w = true -> split_on pct cur w = [cur ++ w].
+Proof.
+  revert cur. induction w as [|c w IH]; intros cur H; [cbn; now rewrite app_nil_r|].
+  cbn [forallb] in H. apply andb_true_iff in H as [Hc H]. cbn [split_on].
+  rewrite (word_not_pct c Hc). rewrite (IH _ H). now rewrite <- app_assoc.
+Qed.
+Lemma split_on_word_pct cur w y : forallb is_word w = true ->
+  split_on pct cur (w ++ pct :: y) = (cur ++ w) :: split_on pct [] y.
+Proof.
+  revert cur. induction w as [|c w IH]; intros cur H.
+  - cbn [app split_on]. change (Ascii.eqb pct pct) with true. cbn iota. now rewrite app_nil_r.
+  - cbn [forallb] in H. apply andb_true_iff in H as [Hc H]. cbn [app split_on].
+    rewrite (word_not_pct c Hc). rewrite (IH _ H). now rewrite <- app_assoc.
+Qed.
+Lemma lower_words w : forallb is_word w = true -> forallb is_word (lower w) = true.
+Proof.
+  induction w as [|c w IH]; intros H; [reflexivity|]. cbn [forallb] in H. apply andb_true_iff in H as [Hc H].
+  cbn [lower map forallb]. rewrite (lower_word c Hc). exact (IH H).
+Qed.
+
+(* the chain of names up to the last part with an argument list *)
+Fixpoint d_head_chain (d : desig) : option chain :=
+  match d with
+  | DLast0 _ => None
+  | DLastA x _ => Some [lower x]
+  | DPart0 x r => match d_head_chain r with Some c => Some (lower x :: c) | None => None end
+  | DPartA x _ r => Some (lower x :: match d_head_chain r with Some c => c | None => [] end)
+  end.
+
+Lemma norm_word_par x : forallb is_word x = true -> norm_chain (x ++ par2) = [lower x].
+Proof.
+  intros H. unfold norm_chain, par2. rewrite (strip_cw_words x _ H). cbn [strip_cw]. rewrite app_nil_r.
+  rewrite (split_on_word [] (lower x) (lower_words x H)). reflexivity.
+Qed.
+Lemma norm_word_pct x h : forallb is_word x = true -> norm_chain (x ++ pct :: h) = lower x :: norm_chain h.
+Proof.
+  intros H. unfold norm_chain. rewrite (strip_cw_words x _ H), strip_cw_pct.
+  unfold lower. rewrite map_app. cbn [map]. change (lower_ch pct) with pct.
+  rewrite (split_on_word_pct [] (map lower_ch x) _ (lower_words x H)). reflexivity.
+Qed.
+Lemma norm_word_par_pct x h : forallb is_word x = true -> norm_chain (x ++ par2 ++ pct :: h) = lower x :: norm_chain h.
+Proof.
+  intros H. unfold norm_chain, par2. rewrite (strip_cw_words x _ H). cbn [app]. rewrite strip_cw_par, strip_cw_pct.
+  unfold lower. rewrite map_app. cbn [map]. change (lower_ch pct) with pct.
+  rewrite (split_on_word_pct [] (map lower_ch x) _ (lower_words x H)). reflexivity.
+Qed.
+
+Lemma d_head_norm d : wf_d d = true ->
+  d_head_chain d = match d_split d with Some (h, _) => Some (norm_chain h) | None => None end.
+Proof.
+  induction d as [x|x a|x r IH|x a r IH]; intros Hwf; pose proof (wf_d_name _ Hwf) as Hn; cbn [d_head_chain d_split].
+  - reflexivity.
+  - destruct Hn as [Hx _]. now rewrite (norm_word_par x (proj1 (name_wordy x Hx))).
+  - destruct Hn as [Hx Hr]. rewrite (IH Hr). destruct (d_split r) as [[h t]|]; [|reflexivity].
+    now rewrite (norm_word_pct x h (proj1 (name_wordy x Hx))).
+  - destruct Hn as (Hx & _ & Hr). rewrite (IH Hr). destruct (d_split r) as [[h t]|].
+    + now rewrite (norm_word_par_pct x h (proj1 (name_wordy x Hx))).
+    + now rewrite (norm_word_par x (proj1 (name_wordy x Hx))).
+Qed.
+
+(* reference heads of one level, as chains *)
+Definition d_heads0 (d : desig) : list chain := match d_head_chain d with Some c => [c] | None => [] end.
+Fixpoint e_heads0 (e : expr) : list chain :=
+  match e with
+  | ELit _ => []
+  | EDes d => d_heads0 d
+  | EPar _ => []
+  | EUn _ e' => e_heads0 e'
+  | EBin a _ b => e_heads0 a ++ e_heads0 b
+  end.
+
+Lemma e_heads_norm e : wf_e e = true -> map norm_chain (e_heads e) = e_heads0 e.
+Proof.
+  induction e as [t|d|e IH|op e IH|a IHa op b IHb]; intros Hwf; cbn [wf_e e_heads e_heads0] in *.
+  - reflexivity.
+  - unfold d_heads, d_heads0. rewrite (d_head_norm d Hwf). destruct (d_split d) as [[h t]|]; reflexivity.
+  - reflexivity.
+  - apply andb_true_iff in Hwf as [_ He]. now apply IH.
+  - apply andb_true_iff in Hwf as [Hwf Hb]. apply andb_true_iff in Hwf as [Ha _].
+    rewrite map_app, (IHa Ha), (IHb Hb). reflexivity.
+Qed.
